@@ -112,3 +112,90 @@ def readScript (text : Str) : Option (List TabDesc) := (splitBlocks (splitNL tex
 
 end C03
 end PyDBML
+
+namespace PyDBML
+namespace C04
+open C03 (stripKw)
+
+/-- `"name"` at the front of `s`: the name and what follows the closing quote -/
+def readQuoted (s : Str) : Option (Str × Str) :=
+  match s with
+  | '"' :: r =>
+    match r.dropWhile (· != '"') with
+    | '"' :: rest => some (r.takeWhile (· != '"'), rest)
+    | _ => none
+  | _ => none
+
+/-- a name as `get_full_name_for_sql` writes it, `"name"` or `"schema"."name"`: the text read and what follows -/
+def readQual (s : Str) : Option (Str × Str) :=
+  match readQuoted s with
+  | some (n1, '.' :: '"' :: r) =>
+    match readQuoted ('"' :: r) with
+    | some (n2, rest) => some ('"' :: n1 ++ '"' :: '.' :: '"' :: n2 ++ ['"'], rest)
+    | none => none
+  | some (n1, rest) => some ('"' :: n1 ++ ['"'], rest)
+  | none => none
+
+/-- `"a", "b")…`: the names and what follows the closing parenthesis -/
+def readNamesR : Nat → Str → Option (List Str × Str)
+  | 0, _ => none
+  | fuel + 1, s =>
+    match readQuoted s with
+    | some (n, ')' :: rest) => some ([n], rest)
+    | some (n, ',' :: ' ' :: r2) => (readNamesR fuel r2).map fun p => (n :: p.1, p.2)
+    | _ => none
+
+/-- what a reader of the DDL learns from one `ALTER TABLE … ADD … FOREIGN KEY` statement -/
+structure FkDesc where
+  /-- the table altered: the one that gets the key, as qualified in the text -/
+  src : Str
+  constraint : Option Str
+  srcCols : List Str
+  /-- the table referenced -/
+  dst : Str
+  dstCols : List Str
+  /-- what follows the referenced columns, without the final semicolon -/
+  actions : Str
+  deriving DecidableEq, Repr
+
+def readConstraint (s : Str) : Option Str × Str :=
+  match stripKw (lit "CONSTRAINT ") s with
+  | (true, s1) =>
+    match readQuoted s1 with
+    | some (n, ' ' :: r) => (some n, r)
+    | _ => (none, s)
+  | _ => (none, s)
+
+/-- the reader of one `ALTER TABLE "t" ADD [CONSTRAINT "n" ]FOREIGN KEY ("a", …) REFERENCES "u" ("x", …)…;` -/
+def readFk (s : Str) : Option FkDesc :=
+  match stripKw (lit "ALTER TABLE ") s with
+  | (true, s1) =>
+    match readQual s1 with
+    | some (src, s2) =>
+      match stripKw (lit " ADD ") s2 with
+      | (true, s3) =>
+        match stripKw (lit "FOREIGN KEY (") (readConstraint s3).2 with
+        | (true, s4) =>
+          match readNamesR s4.length s4 with
+          | some (sc, s5) =>
+            match stripKw (lit " REFERENCES ") s5 with
+            | (true, s6) =>
+              match readQual s6 with
+              | some (dst, s7) =>
+                match stripKw (lit " (") s7 with
+                | (true, s8) =>
+                  match readNamesR s8.length s8 with
+                  | some (dc, s9) =>
+                    if s9.getLast? = some ';' then some ⟨src, (readConstraint s3).1, sc, dst, dc, s9.dropLast⟩ else none
+                  | none => none
+                | _ => none
+              | none => none
+            | _ => none
+          | none => none
+        | _ => none
+      | _ => none
+    | none => none
+  | _ => none
+
+end C04
+end PyDBML
